@@ -18,6 +18,7 @@ CONSTANTS GenVals,    \* the integers sent (each below 2^31)
           StrideC,    \* stride of the single-cut family
           StrideC2,   \* stride of both cuts of the two-cut family
           StrideBC,   \* stride of the rewrite-then-cut family
+          StrideA,    \* stride of the single cut of the array family
           Phase,
           ENCLEN, ENCLENCHK
 
@@ -48,6 +49,14 @@ NomSend(W, vs) ==
 WSent == NomSend(WInit(w.cfg), GenVals)
 T == Len(WSent.wire[0][1])
 NF == Len(GenVals)
+\* arrays of different sizes sent, arrays of GenArrSize asked for (chunked mode: the re-synchronisation path)
+GenArrs == <<<<7, 1000000, 0>>, <<7, 0>>, <<1000000, 7>>>>
+GenArrSize == 2
+RECURSIVE NomSendArrs(_, _)
+NomSendArrs(W, as) == IF as = <<>> THEN W ELSE NomSendArrs(NomSend(W, ArrayValues(Head(as))), Tail(as))
+WSentA == NomSendArrs(WInit(w.cfg), GenArrs)
+TA == Len(WSentA.wire[0][1])
+SelA(S) == {p \in S : p % StrideA = Phase % StrideA}
 Sel(S) == {p \in S : p % Stride = Phase % Stride}
 SelC(S) == {p \in S : p % StrideC = Phase % StrideC}
 SelC2(S) == {p \in S : p % StrideC2 = Phase % StrideC2}
@@ -85,13 +94,14 @@ FaultEv(f) ==
 (* calls Receive until a call changes nothing                               *)
 NoFault == [kind |-> "none"]
 CasesOf(fam) ==
-  CASE fam = "cut1" -> {[f |-> NoFault, cuts |-> <<k>>] : k \in SelC(1..(T - 1))}
-    [] fam = "cut2" -> {c \in {[f |-> NoFault, cuts |-> <<k1, k2>>] : k1 \in SelC2(1..(T - 2)), k2 \in SelC2(2..(T - 1))} :
+  CASE fam = "cut1" -> {[f |-> NoFault, cuts |-> <<k>>, arr |-> FALSE] : k \in SelC(1..(T - 1))}
+    [] fam = "cut2" -> {c \in {[f |-> NoFault, cuts |-> <<k1, k2>>, arr |-> FALSE] : k1 \in SelC2(1..(T - 2)), k2 \in SelC2(2..(T - 1))} :
                           c.cuts[1] < c.cuts[2]}
-    [] fam = "byte" -> {[f |-> f, cuts |-> <<>>] : f \in ByteFaults}
-    [] fam = "bytecut" -> {[f |-> f, cuts |-> <<f.pos + 1>>] : f \in {h \in ByteFaults : h.pos + 1 < T /\ h.pos % StrideBC = Phase % StrideBC}}
-    [] fam = "msg" -> {[f |-> f, cuts |-> c] : f \in MsgFaults, c \in {<<>>, <<MACLEN + 1>>}}
-Cases == UNION {CasesOf(fam) : fam \in (IF Auth THEN Families ELSE Families \cap {"cut1", "cut2"})}
+    [] fam = "byte" -> {[f |-> f, cuts |-> <<>>, arr |-> FALSE] : f \in ByteFaults}
+    [] fam = "bytecut" -> {[f |-> f, cuts |-> <<f.pos + 1>>, arr |-> FALSE] : f \in {h \in ByteFaults : h.pos + 1 < T /\ h.pos % StrideBC = Phase % StrideBC}}
+    [] fam = "msg" -> {[f |-> f, cuts |-> c, arr |-> FALSE] : f \in MsgFaults, c \in {<<>>, <<MACLEN + 1>>}}
+    [] fam = "arr" -> {[f |-> NoFault, cuts |-> c, arr |-> TRUE] : c \in {<<>>} \cup {<<k>> : k \in SelA(1..(TA - 1))}}
+Cases == UNION {CasesOf(fam) : fam \in (IF Auth THEN Families ELSE Families \cap {"cut1", "cut2", "arr"})}
 
 RecvEv == [e |-> "Recv", b |-> 1, sched |-> DIRECT, who |-> 0]
 RECURSIVE Pump(_, _, _)
@@ -100,6 +110,22 @@ Pump(W, evs, fuel) ==
   ELSE LET r == DoRecv(W, 1, DIRECT, 0, <<>>)
        IN IF ~r.ok /\ r.W = W THEN [W |-> W, evs |-> Append(evs, RecvEv)]
           ELSE Pump(r.W, Append(evs, RecvEv), fuel - 1)
+
+RecvArrEv == [e |-> "RecvArr", b |-> 1, size |-> GenArrSize, sched |-> DIRECT, who |-> 0]
+RECURSIVE PumpA(_, _, _)
+PumpA(W, evs, fuel) ==
+  IF fuel = 0 THEN [W |-> W, evs |-> evs]
+  ELSE LET r == DoRecvArr(W, 1, GenArrSize, DIRECT, 0, <<>>)
+       IN IF ~r.ok /\ r.W = W THEN [W |-> W, evs |-> Append(evs, RecvArrEv)]
+          ELSE PumpA(r.W, Append(evs, RecvArrEv), fuel - 1)
+
+RECURSIVE PhasesA(_, _, _, _)
+PhasesA(W, done, cuts, evs) ==
+  LET have == Len(W.wire[0][1])
+      k == IF cuts = <<>> \/ Head(cuts) - done >= have THEN have ELSE Head(cuts) - done
+  IN IF have = 0 THEN [W |-> W, evs |-> evs]
+     ELSE LET p == PumpA(DoMove(W, 0, 1, k), Append(evs, [e |-> "Move", a |-> 0, b |-> 1, k |-> k]), 40)
+          IN PhasesA(p.W, done + k, IF cuts = <<>> THEN <<>> ELSE Tail(cuts), p.evs)
 
 RECURSIVE Phases(_, _, _, _)
 Phases(W, done, cuts, evs) ==
@@ -110,11 +136,16 @@ Phases(W, done, cuts, evs) ==
           IN Phases(p.W, done + k, IF cuts = <<>> THEN <<>> ELSE Tail(cuts), p.evs)
 
 SendEvs == [k \in 1..NF |-> [e |-> "Send", a |-> 0, b |-> 1, vs |-> <<GenVals[k]>>, arr |-> FALSE]]
-Behaviour(c) ==
+SendArrEvs == [k \in 1..Len(GenArrs) |-> [e |-> "Send", a |-> 0, b |-> 1, vs |-> GenArrs[k], arr |-> TRUE]]
+BehaviourA(c) ==
+  LET r == PhasesA(WSentA, 0, c.cuts, SendArrEvs)
+  IN [cfg |-> w.cfg, events |-> r.evs, dl |-> <<>>, da |-> r.W.arrs[1][0], arrsize |-> GenArrSize, id |-> c]
+BehaviourS(c) ==
   LET W1 == IF c.f.kind = "none" THEN WSent ELSE ApplyFault(WSent, c.f)
       e1 == IF c.f.kind = "none" THEN SendEvs ELSE Append(SendEvs, FaultEv(c.f))
       r == Phases(W1, 0, c.cuts, e1)
-  IN [cfg |-> w.cfg, events |-> r.evs, dl |-> r.W.deliv[1][0], id |-> c]
+  IN [cfg |-> w.cfg, events |-> r.evs, dl |-> r.W.deliv[1][0], da |-> <<>>, arrsize |-> 0, id |-> c]
+Behaviour(c) == IF c.arr THEN BehaviourA(c) ELSE BehaviourS(c)
 
 GInit == \E c \in GenModes : w = WInit(c) /\ pc = [a \in 0..1 |-> 1] /\ g \in Cases
 GNext == UNCHANGED <<g, w, pc>>
@@ -124,7 +155,13 @@ GenPrint == PrintT(ToJson(Behaviour(g)))
 \* one (authenticated) yields a prefix (or, IV rewritten, the tail)
 GenOK ==
   LET r == Behaviour(g)
-  IN IF g.f.kind = "none" THEN r.dl = GenVals
+  IN IF g.arr
+     THEN \* whatever the sizes: every array returned consists of consecutive values of the stream, in order
+          LET flat == [k \in 1..(GenArrSize * Len(r.da)) |-> r.da[((k - 1) \div GenArrSize) + 1][((k - 1) % GenArrSize) + 1]]
+              stream == <<7, 1000000, 0, 7, 0, 1000000, 7>>
+          IN IF Chk THEN \A k \in 1..Len(r.da) : \E i \in 0..(Len(stream) - GenArrSize) : SubSeq(stream, i + 1, i + GenArrSize) = r.da[k]
+             ELSE IsPrefix(flat, stream) /\ Len(r.da) = 3
+     ELSE IF g.f.kind = "none" THEN r.dl = GenVals
      ELSE \/ IsPrefix(r.dl, GenVals)
           \/ (Enc /\ ~Chk /\ IsPrefix(r.dl, Tail(GenVals)))
 =============================================================================
